@@ -222,3 +222,5 @@ def run(cx, out):
             ok = sym.vstr(v2) == 'append_or_new_impl(self_encoded, iter)' and t2 == ['eps']
             out.ob('R15.4', '%s [%s]' % (fkey(g), cfg), ok, 'does not call append_or_new_impl(self_encoded, iter): ' + sym.vstr(v2), g['loc'])
         out.floor('R15.4', 'EncodeAppend impls [%s]' % cfg, n, 2)
+    from . import positive
+    positive.check(cx, out, 'C15')
